@@ -51,6 +51,9 @@ type Exchange struct {
 type Decision struct {
 	Fail   bool
 	Status int
+	// AfterEffect: the request takes effect in the registry, but the client is answered
+	// Status (the response got lost / was replaced by a gateway error)
+	AfterEffect bool
 }
 
 // Gate is consulted at the start of every exchange, before any effect.
@@ -61,6 +64,8 @@ type Gate interface {
 type Registry struct {
 	Profile Profile
 	Gate    Gate
+	// Done, when set, is told the status every exchange was answered with.
+	Done func(ex *Exchange, status int)
 
 	mu   sync.Mutex
 	seq  int
@@ -164,13 +169,25 @@ func errBody(code, msg string) []byte {
 }
 
 func (r *Registry) RoundTrip(req *http.Request) (*http.Response, error) {
+	ex, rsp, err := r.roundTrip(req)
+	if r.Done != nil && ex != nil {
+		st := 0
+		if rsp != nil {
+			st = rsp.StatusCode
+		}
+		r.Done(ex, st)
+	}
+	return rsp, err
+}
+
+func (r *Registry) roundTrip(req *http.Request) (*Exchange, *http.Response, error) {
 	var body []byte
 	if req.Body != nil {
 		var err error
 		body, err = io.ReadAll(req.Body)
 		req.Body.Close()
 		if err != nil {
-			return nil, err
+			return nil, nil, err
 		}
 	}
 	ex := &Exchange{Op: OpOf(req.Context()), Method: req.Method, Body: body, MediaType: req.Header.Get("Content-Type"), Kind: "other"}
@@ -193,32 +210,42 @@ func (r *Registry) RoundTrip(req *http.Request) (*http.Response, error) {
 	r.seq++
 	ex.Seq = r.seq
 	r.mu.Unlock()
+	lost := 0
 	if r.Gate != nil {
-		if dec := r.Gate.Enter(ex); dec.Fail {
+		if dec := r.Gate.Enter(ex); dec.Fail && dec.AfterEffect {
+			lost = dec.Status
+			if lost == 0 {
+				lost = 500
+			}
+		} else if dec.Fail {
 			st := dec.Status
 			if st == 0 {
 				st = 500
 			}
-			return resp(req, st, map[string]string{"Content-Type": "application/json"}, errBody("UNKNOWN", "injected failure")), nil
+			return ex, resp(req, st, map[string]string{"Content-Type": "application/json"}, errBody("UNKNOWN", "injected failure")), nil
 		}
 	}
 	if err := req.Context().Err(); err != nil {
-		return nil, err
+		return ex, nil, err
 	}
 	r.mu.Lock()
 	defer r.mu.Unlock()
+	if lost != 0 && ex.Kind == "manifest" {
+		r.manifest(req, ex)
+		return ex, resp(req, lost, map[string]string{"Content-Type": "application/json"}, errBody("UNKNOWN", "injected failure after effect")), nil
+	}
 	switch ex.Kind {
 	case "manifest":
-		return r.manifest(req, ex), nil
+		return ex, r.manifest(req, ex), nil
 	case "referrers":
-		return r.referrers(req, ex), nil
+		return ex, r.referrers(req, ex), nil
 	case "blob":
-		return resp(req, 404, map[string]string{"Content-Type": "application/json"}, errBody("BLOB_UNKNOWN", "blob unknown")), nil
+		return ex, resp(req, 404, map[string]string{"Content-Type": "application/json"}, errBody("BLOB_UNKNOWN", "blob unknown")), nil
 	}
 	if path == "/v2/" {
-		return resp(req, 200, nil, []byte("{}")), nil
+		return ex, resp(req, 200, nil, []byte("{}")), nil
 	}
-	return resp(req, 404, nil, nil), nil
+	return ex, resp(req, 404, nil, nil), nil
 }
 
 func (r *Registry) manifest(req *http.Request, ex *Exchange) *http.Response {
